@@ -306,3 +306,41 @@ def validate_internal(scn, results, timeout=900, **kw):
         why = next((l for l in out.splitlines() if l.startswith("Error:")), "Error")[:160]
         res = [r if r is not None else {"accepted": False, "at": 0, "what": "SchedTrace could not evaluate the recorded projection: " + why} for r in res]
     return res, {"states": tlc.stats(out)["distinct"], "generated": tlc.stats(out)["generated"], "secs": secs}
+
+
+_PW = re.compile(r'<<"PW", (\d+), "(accepted|rejected)", (\d+)(?:, (.*))?>>$')
+
+
+def validate_wake(results, timeout=600):
+    """Wake-up layer (ProgressWake / ProgressTrace): results = explore results with a 'wake' record (any scenarios - one TLC
+    run judges the whole batch).  Returns ([{"accepted", "at", "what"} per result], info).  Executions without a record
+    (hooks unavailable, or longer than the recording limit) are 'unavailable' = drift / skipped, never a verdict."""
+    have = [(i, r) for i, r in enumerate(results) if r.get("wake")]
+    res = [None] * len(results)
+    for i, r in enumerate(results):
+        if not r.get("wake"):
+            res[i] = {"accepted": None, "at": 0, "what": "wake-up trace unavailable: " + str(r.get("wake_unavailable"))[:120]}
+    info = {"states": 0, "generated": 0, "secs": 0.0, "events": 0}
+    if not have:
+        return res, info
+    wd = tlc.scratch()
+    try:
+        for f in ("ProgressTrace.tla", "ProgressTrace.cfg"):
+            shutil.copy(os.path.join(tlc.SPEC, f), wd)
+        batch = [r["wake"] for _, r in have]
+        info["events"] = sum(len(b["ev"]) for b in batch)
+        path = os.path.join(wd, "batch.json")
+        json.dump(batch, open(path, "w"))
+        out, secs, rc = tlc.run_tlc("ProgressTrace", cfg="ProgressTrace.cfg", workdir=wd, env={"TRACE_FILE": path}, workers=1, timeout=timeout, heap="3g")
+    finally:
+        shutil.rmtree(wd, ignore_errors=True)
+    got = {}
+    for t in tlc.tuples(out, "PW"):
+        m = _PW.match(t)
+        if m:
+            got[int(m.group(1)) - 1] = {"accepted": m.group(2) == "accepted", "at": int(m.group(3)), "what": (m.group(4) or "")[:240]}
+    why = next((l for l in out.splitlines() if l.startswith("Error:")), "")[:160]
+    for k, (i, r) in enumerate(have):
+        res[i] = got.get(k) or {"accepted": False, "at": 0, "what": "ProgressTrace could not evaluate the recorded calls: " + (why or "no verdict line")}
+    info.update(states=tlc.stats(out)["distinct"], generated=tlc.stats(out)["generated"], secs=secs)
+    return res, info
